@@ -219,6 +219,18 @@ def installed(tracer, storage_level=True, os_level=True, parquet_native=True):
         setattr_(DO, "tempfile", make_tempfile_proxy(tracer, "do"))
         setattr_(FL, "os", make_os_proxy(tracer, "lock", {"open": _first, "close": _first, "makedirs": _first, "unlink": _first, "write": _first}))
         setattr_(FL, "fcntl", make_fcntl_proxy(tracer, "lock"))
+        # any OTHER datashard module that talks to the operating system (e.g. a helper module that a refactoring moves the
+        # fsync into) is traced too, so that the durability / crash models keep seeing every call
+        import sys as _sys
+        import types as _types
+
+        for _name, _mod in list(_sys.modules.items()):
+            if not _name.startswith("datashard.") or _mod in (SB, DO, FL) or _mod is None:
+                continue
+            if isinstance(_mod.__dict__.get("os"), _types.ModuleType):
+                setattr_(_mod, "os", make_os_proxy(tracer, "sb"))
+            if isinstance(_mod.__dict__.get("tempfile"), _types.ModuleType):
+                setattr_(_mod, "tempfile", make_tempfile_proxy(tracer, "sb"))
         # builtin open() used by read paths of storage_backend
         real_open = builtins.open
 
